@@ -73,13 +73,15 @@ func checkC20(p *core.Program, r *core.Report) {
 	for _, e := range events {
 		visit(e.Term)
 	}
-	for _, b := range run.Blocks {
-		for _, in := range b.Instrs {
-			if a, ok := in.(*ssa.Alloc); ok {
-				visit(ev.Term(a))
+	ev.WalkActivations(func(act *tf.Eval) {
+		for _, b := range act.Fn.Blocks {
+			for _, in := range b.Instrs {
+				if a, ok := in.(*ssa.Alloc); ok {
+					visit(act.Term(a))
+				}
 			}
 		}
-	}
+	})
 	// spawned servers: the alloc must be the receiver of a ListenAndServe reachable through the job constructor; we accept
 	// "passed to an in-repo function that was inlined" — i.e. appears as receiver of ListenAndServe in some event
 	started := map[string]bool{}
